@@ -56,7 +56,6 @@ static void exercise(ST& t, std::mt19937_64& rng, int npts){
     if (!ok) continue;
     for (unsigned d = 0; d < nd; d++) { ncmp++; if (c[d] != c2[d]) { nbad++; printf("MISMATCH center\n"); } }
     int mask = rng() % (1u << nd);
-    for (unsigned d = 0; d < nd; d++) if (t.order[d] == 0) mask &= ~(1 << d); // order-0 derivative reads uninitialised stack in the real code (C02 finding)
     for (int m : {0, mask}) {
       cmp("eval_f", w_eval_f(&t, x.data(), c.data(), m), ir_w_eval_f((char*)&t, (char*)x.data(), (char*)c.data(), m));
       cmp("eval_d", w_eval_d(&t, x.data(), c.data(), m), ir_w_eval_d((char*)&t, (char*)x.data(), (char*)c.data(), m));
@@ -64,7 +63,7 @@ static void exercise(ST& t, std::mt19937_64& rng, int npts){
       cmp("ev_eval_d", w_ev_eval_d(&t, x.data(), c.data(), m), ir_w_ev_eval_d((char*)&t, (char*)x.data(), (char*)c.data(), m));
       cmp("ev_call_d", w_ev_call_d(&t, x.data(), m), ir_w_ev_call_d((char*)&t, (char*)x.data(), m));
     }
-    for (unsigned d = 0; d < nd; d++) { dv[d] = rng() % (t.order[d] + 3); if (t.order[d] == 0 && dv[d] == 1) dv[d] = 2; }
+    for (unsigned d = 0; d < nd; d++) { dv[d] = rng() % (t.order[d] + 3); }
     cmp("deriv", w_deriv(&t, x.data(), c.data(), dv.data()), ir_w_deriv((char*)&t, (char*)x.data(), (char*)c.data(), (char*)dv.data()));
     cmp("ev_deriv_f", w_ev_deriv_f(&t, x.data(), c.data(), dv.data()), ir_w_ev_deriv_f((char*)&t, (char*)x.data(), (char*)c.data(), (char*)dv.data()));
     cmp("ev_deriv_d", w_ev_deriv_d(&t, x.data(), c.data(), dv.data()), ir_w_ev_deriv_d((char*)&t, (char*)x.data(), (char*)c.data(), (char*)dv.data()));
